@@ -353,8 +353,8 @@ def runSched (j : Json) : Json :=
       match (σ.tst t).start, (σ.tst t).stop with
       | some s, some v => !(decide (e.time 0 ≤ s) && decide (v ≤ e.time (e.upper + 1)))
       | _, _ => true)).length
-  -- C06.start_le_end (single resource, one primary + one alternative)
-  let orderedFail := (eligSched ++ altTasks).filter (fun t =>
+  -- C06.start_le_end (single resource, one primary + one alternative, teams of one efficiency)
+  let orderedFail := (eligSched ++ altTasks ++ teams).filter (fun t =>
     match (σ.tst t).start, (σ.tst t).stop with
     | some s, some v => !decide (s ≤ v)
     | _, _ => true)
